@@ -248,6 +248,7 @@ def run_case(case, mode):
 
 
 def main_():
+    import gc
     inp = json.load(open(sys.argv[1]))
     import sc3
     mode = inp.get('mode', 'nrt')
@@ -260,6 +261,9 @@ def main_():
     for i, case in zip(inp['ids'], inp['cases']):
         out.append({'id': i, 'prog': case['prog'], 'conds': case['conds'], 'flows': case['flows'],
                     'ev': run_case(case, mode)})
+        # bodies, routines and their closures form reference cycles: finalise the abandoned generators of this case
+        # NOW (their clean-up code may call the library), not at some allocation inside a later case
+        gc.collect()
     json.dump({'traces': out}, open(sys.argv[2], 'w'))
 
 
